@@ -222,6 +222,8 @@ class Tensor:
     def __getitem__(self, key):
         if not isinstance(key, tuple):
             key = (key,)
+        # a concrete NumPy integer array as index (e.g. a precomputed grid of retained steps) is an advanced index
+        key = tuple(Tensor.from_list([int(v) for v in k]) if type(k).__module__ == "numpy" and getattr(k, "ndim", 0) == 1 and k.dtype.kind in "iu" else k for k in key)
         if any(k is Ellipsis for k in key):
             n_explicit = sum(1 for k in key if k is not None and k is not Ellipsis)
             pos = [j for j, k in enumerate(key) if k is Ellipsis][0]
